@@ -1,0 +1,86 @@
+//go:build verif
+
+package modbus
+
+import "errors"
+
+// Lemma functions for the govc verifier (build tag verif only; never called).
+// Each composes functions of this package; its contract in
+// zz_verif_contracts.go is checked against the callees' contracts, so the
+// composition is proved modularly. They state the end-to-end parts of C19.
+
+var errVerif = errors.New("verif: no normal response")
+
+// verifRtuRoundTrip: an RTU frame built by Encode decodes to what was encoded.
+func verifRtuRoundTrip(r *RTU, id byte, pdu PDU) (byte, PDU, error) {
+	frame, _ := r.Encode(id, pdu)
+	return r.Decode(frame)
+}
+
+// verifTCPRoundTrip: a frame encoded by a client-side TCP transport decodes on a
+// server-side transport to what was encoded, and the reply (same transaction id)
+// is accepted by the client side.
+func verifTCPRoundTrip(cl, srv *TCP, id byte, pdu PDU) (byte, PDU, error) {
+	frame, _ := cl.Encode(id, pdu)
+	return srv.Decode(frame)
+}
+
+// verifServeReadRegs: the request the client builds for (reg, count), processed by the
+// server and decoded the way the client decodes it, yields the server's registers.
+func verifServeReadRegs(regs RegProvider, reg, count uint16) ([]uint16, error) {
+	req := ReadHoldingRegs(reg, count)
+	_, resp, err := req.ProcessRequest(regs)
+	if err != nil {
+		return nil, err
+	}
+	if resp.FunctionCode != req.FunctionCode {
+		return nil, errVerif
+	}
+	vals, err := resp.RespReadRegs()
+	if err != nil {
+		return nil, err
+	}
+	if len(vals) != int(count) {
+		return nil, errVerif
+	}
+	return vals, nil
+}
+
+// verifServeReadCoils: same for coils.
+func verifServeReadCoils(regs RegProvider, coil, count uint16) ([]bool, error) {
+	req := ReadCoils(coil, count)
+	_, resp, err := req.ProcessRequest(regs)
+	if err != nil {
+		return nil, err
+	}
+	if resp.FunctionCode != req.FunctionCode {
+		return nil, errVerif
+	}
+	return resp.RespReadBitsCount(count)
+}
+
+// verifServeWriteReg: a single-register write request built by the client, processed by the server.
+func verifServeWriteReg(regs RegProvider, reg, value uint16) error {
+	req := WriteSingleReg(reg, value)
+	_, resp, err := req.ProcessRequest(regs)
+	if err != nil {
+		return err
+	}
+	if resp.FunctionCode != req.FunctionCode {
+		return errVerif
+	}
+	return nil
+}
+
+// verifServeWriteCoil: a single-coil write request built by the client, processed by the server.
+func verifServeWriteCoil(regs RegProvider, coil uint16, v bool) error {
+	req := WriteSingleCoil(coil, v)
+	_, resp, err := req.ProcessRequest(regs)
+	if err != nil {
+		return err
+	}
+	if resp.FunctionCode != req.FunctionCode {
+		return errVerif
+	}
+	return nil
+}
